@@ -42,6 +42,10 @@ type Stream struct {
 	strs      []string
 	resources []resEntry
 	scopes    []scopeEntry
+	// longLeft: how many very long list/map values (beyond 65,536 and 131,072
+	// elements) this stream may still contain; they are expensive, so only a
+	// few streams get one
+	longLeft int
 
 	// Stats are generator-side labels (what was constructed), merged into the
 	// evidence labels by the checks.
@@ -64,6 +68,9 @@ func NewStream(t *rapid.T, k Knobs, nb int) *Stream {
 	n := rapid.IntRange(0, 4).Draw(t, "npool")
 	for i := 0; i < n; i++ {
 		s.strs = append(s.strs, rapid.StringN(0, 8, 24).Draw(t, "poolstr"))
+	}
+	if s.Rare("longcoll", 40) {
+		s.longLeft = 1
 	}
 	return s
 }
@@ -321,12 +328,27 @@ func (s *Stream) Val(v pcommon.Value, depth int) {
 			return
 		}
 		sl := v.SetEmptySlice()
+		if depth == 0 && s.longLeft > 0 && s.Rare("longlist", 200) {
+			// a list value with very many elements: the domain bounds the
+			// nesting depth of list/map values, not their length
+			s.longLeft--
+			s.Stats["long_list_value"]++
+			n := rapid.SampledFrom([]int{131073, 131072, 200000, 65536, 70000}).Draw(s.T, "longn")
+			sl.EnsureCapacity(n)
+			for i := 0; i < n; i++ {
+				sl.AppendEmpty().SetInt(int64(i % 7))
+			}
+			return
+		}
 		n := rapid.IntRange(0, 3).Draw(s.T, "vln")
 		for i := 0; i < n; i++ {
 			s.Val(sl.AppendEmpty(), depth+1)
 		}
 	case 7:
 		m := v.SetEmptyMap()
+		// (very long MAP values are not generated: the decoder rebuilds a map
+		// with one linear Put per entry, a minute per 131,073-entry map; they
+		// are covered by saved cases replayed in the thorough tier)
 		n := rapid.IntRange(0, 3).Draw(s.T, "vmn")
 		for i := 0; i < n; i++ {
 			s.Val(m.PutEmpty(s.Key()), depth+1)
